@@ -33,13 +33,15 @@ def _reference():
     return _REF["r"], _REF["edges"]
 
 
-def _run(ncores, timeout, incs, sleeps, finish, prefix):
+def _run(ncores, timeout, incs, sleeps, finish, prefix, term_ignored=False):
     ref, ref_edges = _reference()
     kernel = _build()
     g = DG(kernel, NativeParser(PX))
     g.INSTRUCTION_THRESHOLD = 1
     clock = Clock(incs, sleeps)
     env = Env(ncores, clock=clock, finish=finish, prefix=prefix)
+    env.term_ignored = term_ignored
+    deadline_slack = max([0] + list(finish))
     with installed(env):
         deps = g.check_for_loopcarried_dep(kernel, timeout=timeout)
     got = {k: d["latency"] for k, d in deps.items()}
@@ -60,10 +62,13 @@ def _run(ncores, timeout, incs, sleeps, finish, prefix):
     with NoTracing():
         same_dg = sorted(g.dg.edges(data="latency")) == ref_edges                 # CP inputs untouched
     ok = ok and same_dg
+    # no worker left running: whoever was alive at the deadline has been killed, not waited for
+    if timeout != -1 and any(kind == "terminate-ignored" for kind, _ in env.log):
+        ok = False
     return ok, cut_short
 
 
-def sched2(timeout: int, d0: int, d1: int, d2: int, d3: int, s0: int, s1: int, s2: int, f0: int, f1: int, p0: int, p1: int) -> bool:
+def sched2(timeout: int, d0: int, d1: int, d2: int, d3: int, s0: int, s1: int, s2: int, f0: int, f1: int, p0: int, p1: int, term_ignored: bool) -> bool:
     """
     pre: -1 <= timeout <= 2
     pre: 0 <= d0 <= 2 and 0 <= d1 <= 2 and 0 <= d2 <= 2 and 0 <= d3 <= 2
@@ -78,8 +83,8 @@ def sched2(timeout: int, d0: int, d1: int, d2: int, d3: int, s0: int, s1: int, s
         return True
     t = pick(timeout + 1, 4) - 1
     pre = [pick(p0, 3), pick(p1, 3)]
-    ok, cut = _run(2, t, [d0, d1, d2, d3], [s0, s1, s2], [f0, f1], pre)
-    return verdict(ok, nontrivial=cut, sample=lambda: {"timeout": t, "time_increments": [d0, d1, d2, d3], "sleeps": [s0, s1, s2], "finish": [f0, f1], "prefix": pre})
+    ok, cut = _run(2, t, [d0, d1, d2, d3], [s0, s1, s2], [f0, f1], pre, term_ignored)
+    return verdict(ok, nontrivial=cut, sample=lambda: {"timeout": t, "time_increments": [d0, d1, d2, d3], "sleeps": [s0, s1, s2], "finish": [f0, f1], "prefix": pre, "sigterm_ignored": term_ignored})
 
 
 def sched3(timeout: int, d0: int, d1: int, d2: int, s0: int, s1: int, f0: int, f1: int, f2: int, p: int) -> bool:
@@ -102,7 +107,7 @@ def sched3(timeout: int, d0: int, d1: int, d2: int, s0: int, s1: int, f0: int, f
 
 
 CELLS = {
-    "sched2": {"fn": sched2, "bound": "2 workers (2 root instructions each); timeout in {-1,0,1,2}; 4 clock increments 0..2, 3 sleep amounts 1..2, completion instants 0..7, published prefix 0..2 chunks per killed worker: all symbolic",
+    "sched2": {"fn": sched2, "bound": "2 workers (2 root instructions each); timeout in {-1,0,1,2}; 4 clock increments 0..2, 3 sleep amounts 1..2, completion instants 0..7, published prefix 0..2 chunks per killed worker: all symbolic; workers may ignore SIGTERM (only SIGKILL is reliable)",
                "budget": {"quick": 170, "thorough": 900}, "shards": 36},
     "sched3": {"fn": sched3, "tiers": ("thorough",), "bound": "3 workers; timeout 0..3; increments 0..3, sleeps 1..3, completion instants 0..9, prefix 0/1 chunk", "budget": {"thorough": 1500}, "shards": 32},
 }
